@@ -3,3 +3,5 @@
 mod k_dtype;
 #[cfg(kani)]
 mod k_time;
+#[cfg(kani)]
+mod k_gen;
